@@ -35,11 +35,12 @@ ALSO = {
     'C09-7A': 'the C05-B / C04-3B / C10-4B change a fourth time: C05 rc=1 forkless-cause-stale-after-reset, C04 rc=1 build-frame-depends-on-earlier-builds on first contact; C09 itself missed it until the wrong-set-first reset twin was added (DESIGN 11e)',
     'C11-7A': 'missed on first contact: no counting sequence named an ID outside the set; caught since c11Strangers was added (DESIGN 11e)',
     'C33-8A': 'missed on first contact: no cache configuration of the check was larger than 100 roots, so a list of 100 entries never stayed cached; caught since {..,1000} was added to the cache sizes and every second bulk registration goes into a frame queried just before (DESIGN 11f)',
+    'C04-9A': 'missed on first contact: bursts of speculative builds ended at 600 (3000 thorough); caught since every eighth DAG of the C04 check has one burst of 65536 builds (decoy, parentless fillers, real event as build number 2^16) (DESIGN 11g)',
     'C21-5B': 'missed until the C21 check was extended to negative thresholds (DESIGN 11c, known findings K2/K3); caught by C21 since then',
 }
 
 n = 0
-for wave, src in (('2', 'wave2_meta.json'), ('3', 'wave3_meta.json'), ('4', 'wave4_meta.json'), ('5', 'wave5_meta.json'), ('6', 'wave6_meta.json'), ('7', 'wave7_meta.json'), ('8', 'wave8_meta.json')):
+for wave, src in (('2', 'wave2_meta.json'), ('3', 'wave3_meta.json'), ('4', 'wave4_meta.json'), ('5', 'wave5_meta.json'), ('6', 'wave6_meta.json'), ('7', 'wave7_meta.json'), ('8', 'wave8_meta.json'), ('9', 'wave9_meta.json')):
     M = json.load(open(os.path.join(ROOT, src)))
     for k, v in sorted(M.items()):
         d = os.path.join(ROOT, k)
